@@ -88,18 +88,32 @@ theorem chk_sim (o : Oracle) (a : Args) (m : Mode) (e : Env) (ck : Chk) (p : APt
     obtain ⟨j, hj, hc⟩ := anyBelow_exists hb.2
     exact checkCouplingFrom_deriv a m hb.1 a.n 0 c h (Or.inr ⟨j, by omega, by omega, by simpa using hc⟩)
 
+theorem rel_setLb {q : APt} {c : St} (v : Nat) (b : Bool) (rq : Rel q c) (c' : St)
+    (herr : c'.err = c.err) (hwd : c'.wd = c.wd) (hwh : c'.wh = c.wh) (hlb : c'.lb = upd c.lb v b) : Rel (q.setLb v b) c' := by
+  refine ⟨fun h => by rw [herr]; exact rq.err h, ?_, ?_⟩
+  · intro x b' hx
+    have hx' : (if x = v then some b else q.lb x) = some b' := hx
+    rw [hlb]
+    unfold upd
+    split at hx'
+    · rename_i hxv; rw [if_pos hxv]; cases hx'; rfl
+    · rename_i hxv; rw [if_neg hxv]; exact rq.lb x b' hx'
+  · cases rq.facts with
+    | inl h => exact Or.inl (by rw [herr]; exact h)
+    | inr f => exact Or.inr ⟨fun i hi => by rw [hwd]; exact f.wd i hi, fun i hi => by rw [hwh]; exact f.wh i hi⟩
+
 theorem cond_sim (o : Oracle) (a : Args) (m : Mode) (e : Env) (cnd : Cond) :
     ∀ (p : APt) (c : St), Rel p c →
-      Covers (aCond (ctxOf a m) e cnd p) (evalCond o a m e cnd c) ∧ ErrMono c (evalCond o a m e cnd c).2 := by
+      Covers (aCond (ctxOf a m) e cnd p) (evalCond o a m e cnd c) ∧ (evalCond o a m e cnd c).2.ret = c.ret := by
   induction cnd with
-  | derivs => intro p c rel; exact ⟨covers_ofBool _ rel, ErrMono.refl c⟩
-  | hes => intro p c rel; exact ⟨covers_ofBool _ rel, ErrMono.refl c⟩
-  | digp => intro p c rel; exact ⟨covers_ofBool _ rel, ErrMono.refl c⟩
-  | dig i => intro p c rel; exact ⟨covers_ofBool _ rel, ErrMono.refl c⟩
-  | lit b => intro p c rel; exact ⟨covers_ofBool _ rel, ErrMono.refl c⟩
+  | derivs => intro p c rel; exact ⟨covers_ofBool _ rel, rfl⟩
+  | hes => intro p c rel; exact ⟨covers_ofBool _ rel, rfl⟩
+  | digp => intro p c rel; exact ⟨covers_ofBool _ rel, rfl⟩
+  | dig i => intro p c rel; exact ⟨covers_ofBool _ rel, rfl⟩
+  | lit b => intro p c rel; exact ⟨covers_ofBool _ rel, rfl⟩
   | lb x =>
     intro p c rel
-    refine ⟨?_, ErrMono.refl c⟩
+    refine ⟨?_, rfl⟩
     show Covers (match p.lb x with | some b => ofBool b p | none => ⟨some p, some p⟩) (c.lb x, c)
     cases h : p.lb x with
     | none => exact ⟨fun _ => ⟨p, rfl, rel⟩, fun _ => ⟨p, rfl, rel⟩⟩
@@ -110,7 +124,14 @@ theorem cond_sim (o : Oracle) (a : Args) (m : Mode) (e : Env) (cnd : Cond) :
   | opq =>
     intro p c rel
     have mono : ErrMono c { c with tc := c.tc + 1 } := tick_mono c
-    exact ⟨⟨fun _ => ⟨p, rfl, rel.mono mono⟩, fun _ => ⟨p, rfl, rel.mono mono⟩⟩, mono⟩
+    exact ⟨⟨fun _ => ⟨p, rfl, rel.mono mono⟩, fun _ => ⟨p, rfl, rel.mono mono⟩⟩, rfl⟩
+  | gsl k =>
+    intro p c rel
+    refine ⟨⟨fun h => ⟨p.setLb k true, rfl, ?_⟩, fun h => ⟨p.setLb k false, rfl, ?_⟩⟩, rfl⟩
+    · have hb : o.cond c.tc = true := h
+      exact rel_setLb k true rel _ rfl rfl rfl (by show upd c.lb k (o.cond c.tc) = _; rw [hb])
+    · have hb : o.cond c.tc = false := h
+      exact rel_setLb k false rel _ rfl rfl rfl (by show upd c.lb k (o.cond c.tc) = _; rw [hb])
   | not c1 ih =>
     intro p c rel
     obtain ⟨cv, mono⟩ := ih p c rel
@@ -134,7 +155,7 @@ theorem cond_sim (o : Oracle) (a : Args) (m : Mode) (e : Env) (cnd : Cond) :
       obtain ⟨pt, hpt, rpt⟩ := cv1.tt h1
       obtain ⟨cv2, mono2⟩ := ih2 pt _ rpt
       rw [hpt]
-      refine ⟨⟨fun h => cv2.tt h, fun h => ?_⟩, mono1.trans mono2⟩
+      refine ⟨⟨fun h => cv2.tt h, fun h => ?_⟩, mono2.trans mono1⟩
       obtain ⟨pf, hpf, rpf⟩ := cv2.ff h
       exact joinO_right hpf rpf
   | or c1 c2 ih1 ih2 =>
@@ -154,9 +175,9 @@ theorem cond_sim (o : Oracle) (a : Args) (m : Mode) (e : Env) (cnd : Cond) :
       obtain ⟨pf, hpf, rpf⟩ := cv1.ff h1
       obtain ⟨cv2, mono2⟩ := ih2 pf _ rpf
       rw [hpf]
-      refine ⟨⟨fun h => ?_, fun h => cv2.ff h⟩, mono1.trans mono2⟩
+      refine ⟨⟨fun h => ?_, fun h => cv2.ff h⟩, mono2.trans mono1⟩
       obtain ⟨pt, hpt, rpt⟩ := cv2.tt h
       exact joinO_right hpt rpt
-  | chk ck => intro p c rel; exact chk_sim o a m e ck p c rel
+  | chk ck => intro p c rel; exact ⟨(chk_sim o a m e ck p c rel).1, (chk_sim o a m e ck p c rel).2.ret⟩
 
 end MpVerif.C16
